@@ -30,6 +30,18 @@ impl ScannerCache {
         }
     }
 
+    /// Verification hook: removes all entries.
+    #[cfg(scnr_verif)]
+    pub(crate) fn verif_clear(&mut self) {
+        self.cache.clear();
+    }
+
+    /// Verification hook: number of entries.
+    #[cfg(scnr_verif)]
+    pub(crate) fn verif_len(&self) -> usize {
+        self.cache.len()
+    }
+
     /// Returns a scanner from the cache or creates a new one if it does not exist.
     ///
     /// # Safety
